@@ -6,6 +6,7 @@ package main
 // nothing but signatures changes; the caller's env map is not modified.
 
 import (
+	"bytes"
 	"context"
 	"fmt"
 	"reflect"
@@ -85,7 +86,12 @@ func runC06(c *ctx) error {
 		}
 		penvBefore := copyEnv(penv)
 		before := dump.Steps(p.Steps)
+		// the state to compare with afterwards: the same document parsed again, signatures removed
 		beforeEnc := vl.Enc(before)
+		if p0, _ := pipeline.Parse(bytes.NewReader(src)); p0 != nil {
+			stripSigs(p0.Steps)
+			beforeEnc = vl.Enc(dump.Steps(p0.Steps))
+		}
 		unknown := hasUnknownStep(p.Steps)
 		var err error
 		if pn, msg := guard(func() {
